@@ -271,6 +271,28 @@ def coq_crosscheck(ctx, name: str, imports: str, pairs, timeout: int = 600):
         pass
 
 
+def xcheck_sample(cases, answers, lhs_of, rhs_of, cap: int = 12, max_nodes: int = 25):
+    """Pick a spread sample of (case, driver answer) pairs small enough for vm_compute and render them as Gallina
+    equations for coq_crosscheck.  lhs_of(case) -> Gallina text of the model call; rhs_of(answer) -> Gallina text of
+    the driver's answer, or None to skip an answer this printer does not cover."""
+    import ast as _ast
+    pairs = []
+    both = list(zip(cases, answers))
+    for e, a in both[::max(1, len(both) // (4 * cap))]:
+        if len(pairs) >= cap:
+            break
+        try:
+            if sum(1 for _ in _ast.walk(e)) > max_nodes:
+                continue
+            rhs = rhs_of(a)
+            if rhs is None:
+                continue
+            pairs.append((lhs_of(e), rhs))
+        except Exception:
+            continue
+    return pairs
+
+
 # ---------------------------------------------------------------- model driver
 
 class Driver:
